@@ -1,7 +1,7 @@
 (* C10 — duplicates / unique / distinct partition the key-sorted rows by runs of equal keys.
    `runs eq rows` are the maximal blocks of adjacent rows with == keys of the stream the loops read (the key-sorted
    table); hypotheses: every row has the key cells (rectangular tables).                                           *)
-From Verif Require Import PyVal Rows Dedup DedupFacts.
+From Verif Require Import PyVal Rows Sort Dedup DedupFacts MultFacts.
 From Coq Require Import Permutation.
 
 (* duplicates = exactly the rows of the runs of length > 1, unique = exactly the rows of the runs of length 1 *)
@@ -31,8 +31,31 @@ Theorem C10_run_lengths_sum_nrows : forall (eq : row -> row -> bool) rows,
   fold_right (fun r n => (length r + n)%nat) 0%nat (runs eq rows) = length rows.
 Proof. intros; apply run_lengths_sum. Qed.
 
-(* The step from "run of the key-sorted stream" to "key multiplicity in the table" (equal keys are adjacent after
-   sorting) is NOT mechanised here; it is judged on every run by the extracted oracle DedupSpec.dedup_spec_holds. *)
+(* From runs to multiplicities.  The loops read S = sort(table, key); in a stream sorted by a total preorder the maximal
+   runs of equivalent keys ARE the equivalence classes (MultFacts.runs_are_classes), so, with key_multiplicity x = the
+   number of rows of the TABLE whose key is equivalent to x's:
+     duplicates = the rows whose key occurs at least twice, unique = the rows whose key occurs exactly once,
+     and the length of a run (distinct's count column) is the multiplicity of its key.
+   Hypotheses: every row has the key cells, and raw == agrees with the Comparable equivalence on the keys of this table
+   (true when no key cell is a list; the harness checks the conclusion on the implementation for every generated table). *)
+Theorem C10_duplicates_are_rows_with_repeated_key : forall idx rows gk k,
+  (forall r, In r (sort_data (row_leb false idx) None rows) -> gk r = Some (k r)) ->
+  (forall a b, In a rows -> In b rows -> py_eq (k a) (k b) = keq idx a b) ->
+  exists d, iterduplicates_data gk (sort_data (row_leb false idx) None rows) = (d, None) /\
+            forall x, In x d <-> In x rows /\ (2 <= key_multiplicity idx rows x)%nat.
+Proof. exact duplicates_by_multiplicity. Qed.
+
+Theorem C10_unique_are_rows_with_single_key : forall idx rows gk k,
+  (forall r, In r (sort_data (row_leb false idx) None rows) -> gk r = Some (k r)) ->
+  (forall a b, In a rows -> In b rows -> py_eq (k a) (k b) = keq idx a b) ->
+  exists u, iterunique_data gk (sort_data (row_leb false idx) None rows) = (u, None) /\
+            forall x, In x u <-> In x rows /\ key_multiplicity idx rows x = 1%nat.
+Proof. exact unique_by_multiplicity. Qed.
+
+Theorem C10_run_length_is_key_multiplicity : forall idx rows r,
+  In r (runs (keq idx) (sort_data (row_leb false idx) None rows)) -> forall x, In x r ->
+  length r = key_multiplicity idx rows x.
+Proof. exact distinct_run_counts. Qed.
 
 Open Scope Z_scope.
 Example C10_ex :
@@ -51,3 +74,6 @@ Print Assumptions C10_duplicates_unique_partition.
 Print Assumptions C10_distinct_first_of_each_run.
 Print Assumptions C10_runs_tile_rows.
 Print Assumptions C10_run_lengths_sum_nrows.
+Print Assumptions C10_duplicates_are_rows_with_repeated_key.
+Print Assumptions C10_unique_are_rows_with_single_key.
+Print Assumptions C10_run_length_is_key_multiplicity.
